@@ -158,8 +158,19 @@ const SigSwallowedConditionError = "C01/condition-error-swallowed-next-to-valid-
 // relation and same object, or same relation, object type and user) whose
 // condition is absent or true.
 func SwallowedNextToValidSibling(w gen.World, r m.Request) bool {
+	return swallowedNextToValidSibling(w, r, refsem.False)
+}
+
+// SwallowedNextToValidSiblingGrants: the same, under an exclusion: with the
+// unevaluable tuple treated as absent the subtracted set loses a member and
+// the request is granted.
+func SwallowedNextToValidSiblingGrants(w gen.World, r m.Request) bool {
+	return swallowedNextToValidSibling(w, r, refsem.True)
+}
+
+func swallowedNextToValidSibling(w gen.World, r m.Request, answer refsem.Outcome) bool {
 	ts := EvalTuples(w, r.Contextual)
-	if refsem.NewEvalDroppingUnknown(w.Model, ts, r.User, r.Ctx, r.Object).Holds(r.Object, r.Relation) != refsem.False {
+	if refsem.NewEvalDroppingUnknown(w.Model, ts, r.User, r.Ctx, r.Object).Holds(r.Object, r.Relation) != answer {
 		return false
 	}
 	return HasUnknownWithValidSibling(refsem.NewEval(w.Model, ts, r.User, r.Ctx, r.Object).TupleOutcomes())
@@ -192,6 +203,9 @@ func HasUnknownWithValidSibling(outs []refsem.TupleOutcome) bool {
 // known_findings.json); "" = unclassified.
 func ClassifyCheck(w gen.World, r m.Request, exp refsem.Outcome, allowed bool, err error) string {
 	if err == nil && !allowed && exp == refsem.Unknown && SwallowedNextToValidSibling(w, r) {
+		return SigSwallowedConditionError
+	}
+	if err == nil && allowed && exp == refsem.Unknown && SwallowedNextToValidSiblingGrants(w, r) {
 		return SigSwallowedConditionError
 	}
 	if err == nil && !allowed && (exp == refsem.True || exp == refsem.Unknown) && UserAndWildcardOnSameObjectNotBothEffective(w, r) {
